@@ -252,9 +252,9 @@ def wrap_spec(kind, sub):
         ov = (e + w - 1) - left
         n = ra * P2(z)
         if sub == "all-above":
-            # every source bit lies above the target: 2**z is a multiple of 2**W
-            sx.lemma("div-multiple", ra * P2(z - W), P2(W))
+            # every source bit lies above the target: 2**z = 2**(z-W) * 2**W is a multiple of 2**W, so is raw * 2**z
             sx.pow2_facts(z, W, z - W, products=[(z - W, W)])
+            sx.lemma("mod-multiple3", ra, P2(W), P2(z - W), P2(z))
         else:
             m = P2(w - ov)  # modulus of the kept source bits
             q = P2(z)
